@@ -18,8 +18,8 @@ def apply_step(obj, st, via):
     a = st["a"]
     pd = obj.pdimension
     info = {"raised": None, "printed": ""}
-    if a == "insert" or a == "remove":
-        if a == "insert":
+    if a in ("insert", "remove", "remove_multi"):
+        if a in ("insert", "remove_multi"):
             prm = [None if p == [] else float(fr(p)) for p in st["prm"]]
             num = list(st["num"])
         else:
